@@ -1370,8 +1370,13 @@ pub async fn run_step(world: &mut World, scn: &mut Scn, step: &Value, out: &mut 
             let ent = world.ent_full(&s(step, "ent"));
             match (scn.names.rows.get(&s(step, "row")).cloned(), scn.names.rooms.get(&s(step, "room")).cloned()) {
                 (Some(id), Some(room)) => {
-                    let q = format!("mutate {{ {ent} {{ id:$id room_id:$room }} }}");
-                    if let Err(e) = p.db.mutate(&q, params(&[("id", uid_encode(&id)), ("room", uid_encode(&room))])).await {
+                    // a mutation that only names another room is ignored by the library (no field changed): a move also writes the text
+                    let r = match step.get("text").and_then(|t| t.as_str()) {
+                        Some(text) => p.db.mutate(&format!("mutate {{ {ent} {{ id:$id room_id:$room name:$text }} }}"),
+                            params(&[("id", uid_encode(&id)), ("room", uid_encode(&room)), ("text", text.to_string())])).await,
+                        None => p.db.mutate(&format!("mutate {{ {ent} {{ id:$id room_id:$room }} }}"), params(&[("id", uid_encode(&id)), ("room", uid_encode(&room))])).await,
+                    };
+                    if let Err(e) = r {
                         res = Err(e.to_string());
                     }
                 }
